@@ -63,6 +63,10 @@ THEOREMS = {
         "Dawgs.C10.Props.query_roundtrip",
         "Dawgs.C10.Props.prepare_parameters_preserved",
         "Dawgs.C10.Props.lift_numbering",
+        "Dawgs.C10.Props.rewrite_loses_parameters",
+        "Dawgs.C10.Props.rewrite_binds_all_fixed",
+        "Dawgs.C10.Props.rewrite_current_partial",
+        "Dawgs.C10.Props.builder_names_not_reserved",
     ],
 }
 
@@ -282,7 +286,70 @@ def rw_judge(op, impl, model):
     return "reject rewrite-path-model-changed %s text=%s" % (head[-200:], f.get("text", "")[:160])
 
 
+# ---- suite pmc10: the parameter map through neo4jTransaction.Query's rewrite
+PM_KEY = "C10:drivers/neo4j.rewriteQuery:parameters-lost-when-pattern-property-maps-are-empty"
+
+
+def _pm_mode():
+    """The Lean side answers for the rewrite as it is, or with hooks/C10-fix9 once known_findings.json lists PM_KEY as fixed
+    (so committing the patch and flipping the entry is all it takes); VERIF_C10_MODE=fix9 / current overrides."""
+    env = os.environ.get("VERIF_C10_MODE", "")
+    if env in ("fix9", "current"):
+        return env
+    try:
+        import json
+        kf = json.load(open(os.path.join(os.path.dirname(os.path.dirname(os.path.dirname(os.path.abspath(__file__)))), "known_findings.json")))
+        for f in kf["findings"]:
+            if f.get("key") == PM_KEY and f.get("status") == "fixed":
+                return "fix9"
+    except Exception:
+        pass
+    return "current"
+
+
+PM_MODE = _pm_mode()
+
+
+def pm_model_input(op, impl):
+    if impl.startswith(("hook-missing", "prepare-error", "render-error", "rewrite-error", "bad-op", "panic", "skipped")):
+        return "# " + impl[:60]
+    f = fields(impl)
+    return "r %s %s %s" % (PM_MODE, f.get("P", "(pats)"), f.get("L", "(plains)"))
+
+
+def pm_impl_view(impl):
+    if impl.startswith(("hook-missing", "prepare-error", "render-error", "rewrite-error", "bad-op", "panic", "skipped")):
+        return "#"
+    f = fields(impl)
+    return "syms %s | bound %s" % (f.get("syms"), f.get("bound"))
+
+
+def pm_model_view(model):
+    if model.startswith("#"):
+        return "#"
+    f = fields(model)
+    return "syms %s | bound %s" % (f.get("syms"), f.get("bound"))
+
+
+def pm_judge(op, impl, model):
+    if impl.startswith("panic"):
+        return "reject panic " + impl[:100]
+    if impl.startswith(("hook-missing", "prepare-error", "render-error", "bad-op", "skipped")):
+        return "ok"
+    if impl.startswith("rewrite-error"):
+        return "reject driver-rewrite-refuses-builder-query " + impl[:200]
+    f = fields(impl)
+    if f.get("unbound", "-") != "-":
+        return "reject parameters-lost-in-driver-rewrite unbound=%s text2=%s" % (f["unbound"], f.get("text2", "")[:200])
+    if f.get("changed", "-") != "-":
+        return "reject parameter-value-changed-in-driver-rewrite %s text2=%s" % (f["changed"], f.get("text2", "")[:200])
+    if f.get("expanded", "ok") != "ok":
+        return "reject pattern-property-expansion %s text2=%s" % (f["expanded"], f.get("text2", "")[:200])
+    return "ok"
+
+
 KEYS = {
+    "parameters-lost-in-driver-rewrite": PM_KEY,
     "and-over-unparenthesised-xor": "C10:format.Conjunction:and-over-unparenthesised-xor",
     "and-over-unparenthesised-or": "C10:format.Conjunction:and-over-unparenthesised-or",
     "xor-over-unparenthesised-or": "C10:format.ExclusiveDisjunction:xor-over-unparenthesised-or",
@@ -320,6 +387,8 @@ def nontrivial(ops, impl):
             return True
         if o.startswith("q ") and (r.startswith("ok") or r.startswith("diff")):
             return True
+        if o.startswith("pm ") and "\tP (pats (" in r:
+            return True
     return False
 
 
@@ -330,11 +399,13 @@ SPEC = {
     "regen": do_regen,
     "lean_modules": ["Dawgs.Props.C10", "Dawgs.Props.C10Tie"],
     "theorems_by_module": THEOREMS,
-    "gate_modules": ["Dawgs.Model.C10", "Dawgs.Model.C10Q", "Dawgs.Spec.C10", "Dawgs.Spec.C10Q", "Dawgs.Proofs.C10", "Dawgs.Proofs.C10Q", "Dawgs.Props.C10", "Dawgs.Spec.C10Cover", "Dawgs.Props.C10Tie"],
+    "gate_modules": ["Dawgs.Model.C10", "Dawgs.Model.C10Q", "Dawgs.Spec.C10", "Dawgs.Spec.C10Q", "Dawgs.Proofs.C10", "Dawgs.Proofs.C10Q", "Dawgs.Props.C10", "Dawgs.Spec.C10Cover", "Dawgs.Props.C10Tie", "Dawgs.Model.C10P", "Dawgs.Proofs.C10P"],
     "suites": [
         {"name": "c10", "model_suite": "c10", "model_input": model_input, "impl_view": impl_view, "model_view": model_view,
          "judge": judge, "keep_prefix": 1, "thorough_seeds": 2},
         {"name": "rwc10", "judge": rw_judge, "keep_prefix": 1, "thorough_seeds": 1},
+        {"name": "pmc10", "model_suite": "pmc10", "model_input": pm_model_input, "impl_view": pm_impl_view, "model_view": pm_model_view,
+         "judge": pm_judge, "keep_prefix": 1, "thorough_seeds": 1},
     ],
     "nontrivial": nontrivial,
     "finding_key": finding_key,
@@ -342,10 +413,13 @@ SPEC = {
             "nestings, 3 positions each), every listed string/float/int literal as a bare operand, then random terms over the exported constructors of "
             "package query (depth 1..5, smallest first; 1500 quick, 2 x 12000 thorough; plus a fifth as many kind-heavy terms; plus the systematic family of relationship/node kind matchers under nested negations and and/or/xor lists before/after sibling negations: 360 quick, 1296 thorough; splitmix64(VERIF_SEED)) wrapped in Returning/OrderBy/Limit/Offset/"
             "Update/Delete; suite rwc10: every Cypher text of the repository corpora through parse -> format.RegularQuery -> re-parse. "
-            "non-trivial = a term nesting >= 2 combinators that was rendered and re-parsed, or a corpus query that was compared; distinct = distinct op lines",
+            "non-trivial = a term nesting >= 2 combinators that was rendered and re-parsed, or a corpus query that was compared; "
+            "suite pmc10: MATCH patterns with pattern-property parameters {absent, nil, empty, one key, three keys} on one or two elements x four WHERE shapes "
+            "(other parameters absent/present) + relationship properties + random (150 quick, 3000 thorough), rendered through NewQueryBuilder/Apply/Prepare/Render and "
+            "passed through the driver's rewriteQuery (hook drivers/neo4j/verif_c10.go, hooks/C10-hook.patch); distinct = distinct op lines",
     "expected_branches": ["rendered", "builder_path_rendered", "gen.xor", "gen.kind_all_of", "gen.float_literal", "gen.string_literal",
                           "gen.list_literal", "gen.raw_negation", "gen.order_by", "gen.limit", "gen.update", "gen.delete", "gen.kind_nests",
-                          "gen.kind_on_relationship", "rw.compared"],
+                          "gen.kind_on_relationship", "rw.compared", "pm_rewritten"],
     "trusted_base": [
         "the lexer level: the harness tokenises the emitted WHERE text (c10Lex) and the Lean model starts at tokens; the string literal is the only "
         "token class modelled at character level (quote/lex/decode, theorem literal_roundtrip_string)",
